@@ -22,7 +22,10 @@ CONSTANTS NP,        \* number of partitions per step (index 0 = wind sea)
           T,         \* number of steps explored after the first
           EMIT       \* carry the history and print one vector per complete behaviour
 
-ASSUME \A g \in Gaps : g < 0 /\ -g < DfSwell
+\* MISSINGGAP: the sea threshold of the step is not a number (the wind speed of the previous step is missing, NaN, or zero:
+\* dfp_wsea gives NaN).  No frequency change is "within" such a threshold, so the previous wind-sea slot continues nothing.
+MISSINGGAP == 1
+ASSUME \A g \in Gaps : g = MISSINGGAP \/ (g < 0 /\ -g < DfSwell)
 
 NaN == <<-1, -1>>
 P == 0..(NP-1)
@@ -41,6 +44,7 @@ Within(cur, prev, c, p, gap) ==
   /\ DDir(cur[c][2], prev[p][2]) < DdMax(p)
   /\ cur[c][1] - prev[p][1] < DfSwell
   /\ cur[c][1] - prev[p][1] > DfMin(p, gap)
+  /\ (p = 0 => gap # MISSINGGAP)
 
 \* distance |dfp|/DfSwell + ddpm/DdMax(p) as <<num, den>>
 Dist(cur, prev, c, p) ==
